@@ -8,8 +8,12 @@ import (
 	"os"
 	"path/filepath"
 
+	"encoding/gob"
+
 	"github.com/golang/protobuf/proto"
+	"github.com/itchio/lake/tlc"
 	"github.com/itchio/savior/seeksource"
+	"github.com/itchio/wharf/pwr/bowl"
 	"github.com/itchio/wharf/pwr/overlay"
 	"verif/lib"
 )
@@ -18,6 +22,8 @@ import (
 
 type c14Spec struct {
 	Seed uint64 `json:"seed"`
+	// Bowl: the overlay is produced and applied by the overlay bowl (entry writer Save/Resume sessions, Commit)
+	Bowl bool `json:"bowl,omitempty"`
 }
 
 func c14Cases(tier string, seed uint64, flavor string) []lib.Case {
@@ -29,6 +35,9 @@ func c14Cases(tier string, seed uint64, flavor string) []lib.Case {
 	for i := 0; i < n; i++ {
 		cases = append(cases, lib.Case{Seed: lib.Mix(seed, 14, uint64(i)), Kind: "overlay", Spec: lib.MustSpec(c14Spec{Seed: lib.Mix(seed, 14, uint64(i))})})
 	}
+	for i := 0; i < n/3; i++ {
+		cases = append(cases, lib.Case{Seed: lib.Mix(seed, 141, uint64(i)), Kind: "overlay-bowl", Spec: lib.MustSpec(c14Spec{Seed: lib.Mix(seed, 141, uint64(i)), Bowl: true})})
+	}
 	return cases
 }
 
@@ -36,6 +45,94 @@ var c14SharedCtx = &overlay.OverlayPatchContext{}
 
 var c14EqualRuns = []int{1, 100, 8191, 8192, 8193, 8194, 20000, 131071, 131072, 131073, 300000}
 var c14WriteSizes = []int{1, 7, 4096, 8191, 8192, 8193, 131071, 131072, 131073, 300000, -1}
+
+// c14Contents assembles an (old, new) pair from equal and differing runs (see Rule).
+func c14Contents(r *lib.Rng) (old, nw []byte, shape []string, forced []int, lenRel string, small bool) {
+	// --- build old/new from runs
+	small = r.Chance(0.25) // 1-byte write patterns are expensive: small files only
+	budget := r.PickInt([]int{0, 1000, 128 * lib.KB, 128*lib.KB + 5, 300000, 600000})
+	if small {
+		budget = r.Range(0, 64*lib.KB)
+	}
+	for len(nw) < budget {
+		if r.Bool() {
+			n := r.PickInt(c14EqualRuns)
+			if small && n > 20000 {
+				n = r.PickInt(c14EqualRuns[:6])
+			}
+			d := lib.RandomBytes(int64(n), r.Uint64())
+			old = append(old, d...)
+			nw = append(nw, d...)
+			shape = append(shape, fmt.Sprintf("eq%d", n))
+		} else {
+			n := r.PickInt([]int{1, 50, 5000, 70000})
+			d := lib.RandomBytes(int64(n), r.Uint64())
+			e := lib.RandomBytes(int64(n), r.Uint64())
+			if r.Chance(0.4) { // equal except every ~k-th byte
+				e = append([]byte(nil), d...)
+				k := r.PickInt([]int{2, 100, 8000, 9000})
+				for i := k - 1; i < len(e); i += k {
+					e[i] ^= 0x5a
+				}
+				shape = append(shape, fmt.Sprintf("sparse%d/%d", n, k))
+			} else {
+				shape = append(shape, fmt.Sprintf("diff%d", n))
+			}
+			old = append(old, d...)
+			nw = append(nw, e...)
+		}
+	}
+	// forced: new-content offsets where a write must end and a flush happens
+	lenRel = "same-length"
+	if r.Chance(0.3) {
+		// shifted content: new = old[:a] + inserted + old[a:] (or with a deletion), so that equal data
+		// sits at different offsets in old and new; writes end (and flush) exactly at the edit points
+		m := r.PickInt([]int{20000, 128 * lib.KB, 300000, 500000})
+		if small {
+			m = r.Range(9000, 60000)
+		}
+		old = lib.RandomBytes(int64(m), r.Uint64())
+		a := r.PickInt([]int{0, 0, 1, 8193, m / 2})
+		if a > m {
+			a = m
+		}
+		k := r.PickInt([]int{1, 100, 8192, 8193, 50000, 131071, 131072})
+		if r.Chance(0.7) {
+			nw = append(append(append([]byte(nil), old[:a]...), lib.RandomBytes(int64(k), r.Uint64())...), old[a:]...)
+			forced = []int{a, a + k}
+			shape = []string{fmt.Sprintf("insert%d@%d", k, a)}
+		} else {
+			if a+k > m {
+				k = m - a
+			}
+			nw = append(append([]byte(nil), old[:a]...), old[a+k:]...)
+			forced = []int{a}
+			shape = []string{fmt.Sprintf("delete%d@%d", k, a)}
+		}
+		lenRel = "shifted"
+	} else {
+		switch r.Intn(6) {
+		case 0:
+			nw = nw[:r.Range(0, len(nw))]
+			lenRel = "new-shorter"
+		case 1:
+			nw = append(nw, lib.RandomBytes(int64(r.PickInt([]int{1, 8193, 140000})), r.Uint64())...)
+			lenRel = "new-longer"
+		case 2:
+			old = old[:r.Range(0, len(old))]
+			lenRel = "old-shorter"
+		case 3:
+			if r.Bool() {
+				old = nil
+				lenRel = "old-empty"
+			} else {
+				nw = nil
+				lenRel = "new-empty"
+			}
+		}
+	}
+	return
+}
 
 // refOverlayApply applies decoded overlay ops to a copy of old (reference applier, DESIGN §4.4).
 func refOverlayApply(ovl []byte, old []byte) ([]byte, int, error) {
@@ -97,93 +194,12 @@ func refOverlayApply(ovl []byte, old []byte) ([]byte, int, error) {
 func c14Run(c lib.Case, env *lib.Env) lib.Result {
 	var s c14Spec
 	lib.ReadSpec(c, &s)
+	if s.Bowl {
+		return c14BowlRun(c, s, env)
+	}
 	res := lib.Result{NonTrivial: true}
 	r := lib.NewRng(s.Seed)
-	// --- build old/new from runs
-	var old, nw []byte
-	var shape []string
-	small := r.Chance(0.25) // 1-byte write patterns are expensive: small files only
-	budget := r.PickInt([]int{0, 1000, 128 * lib.KB, 128*lib.KB + 5, 300000, 600000})
-	if small {
-		budget = r.Range(0, 64*lib.KB)
-	}
-	for len(nw) < budget {
-		if r.Bool() {
-			n := r.PickInt(c14EqualRuns)
-			if small && n > 20000 {
-				n = r.PickInt(c14EqualRuns[:6])
-			}
-			d := lib.RandomBytes(int64(n), r.Uint64())
-			old = append(old, d...)
-			nw = append(nw, d...)
-			shape = append(shape, fmt.Sprintf("eq%d", n))
-		} else {
-			n := r.PickInt([]int{1, 50, 5000, 70000})
-			d := lib.RandomBytes(int64(n), r.Uint64())
-			e := lib.RandomBytes(int64(n), r.Uint64())
-			if r.Chance(0.4) { // equal except every ~k-th byte
-				e = append([]byte(nil), d...)
-				k := r.PickInt([]int{2, 100, 8000, 9000})
-				for i := k - 1; i < len(e); i += k {
-					e[i] ^= 0x5a
-				}
-				shape = append(shape, fmt.Sprintf("sparse%d/%d", n, k))
-			} else {
-				shape = append(shape, fmt.Sprintf("diff%d", n))
-			}
-			old = append(old, d...)
-			nw = append(nw, e...)
-		}
-	}
-	var forced []int // new-content offsets where a write must end and a flush happens
-	lenRel := "same-length"
-	if r.Chance(0.3) {
-		// shifted content: new = old[:a] + inserted + old[a:] (or with a deletion), so that equal data
-		// sits at different offsets in old and new; writes end (and flush) exactly at the edit points
-		m := r.PickInt([]int{20000, 128 * lib.KB, 300000, 500000})
-		if small {
-			m = r.Range(9000, 60000)
-		}
-		old = lib.RandomBytes(int64(m), r.Uint64())
-		a := r.PickInt([]int{0, 0, 1, 8193, m / 2})
-		if a > m {
-			a = m
-		}
-		k := r.PickInt([]int{1, 100, 8192, 8193, 50000, 131071, 131072})
-		if r.Chance(0.7) {
-			nw = append(append(append([]byte(nil), old[:a]...), lib.RandomBytes(int64(k), r.Uint64())...), old[a:]...)
-			forced = []int{a, a + k}
-			shape = []string{fmt.Sprintf("insert%d@%d", k, a)}
-		} else {
-			if a+k > m {
-				k = m - a
-			}
-			nw = append(append([]byte(nil), old[:a]...), old[a+k:]...)
-			forced = []int{a}
-			shape = []string{fmt.Sprintf("delete%d@%d", k, a)}
-		}
-		lenRel = "shifted"
-	} else {
-		switch r.Intn(6) {
-		case 0:
-			nw = nw[:r.Range(0, len(nw))]
-			lenRel = "new-shorter"
-		case 1:
-			nw = append(nw, lib.RandomBytes(int64(r.PickInt([]int{1, 8193, 140000})), r.Uint64())...)
-			lenRel = "new-longer"
-		case 2:
-			old = old[:r.Range(0, len(old))]
-			lenRel = "old-shorter"
-		case 3:
-			if r.Bool() {
-				old = nil
-				lenRel = "old-empty"
-			} else {
-				nw = nil
-				lenRel = "new-empty"
-			}
-		}
-	}
+	old, nw, shape, forced, lenRel, small := c14Contents(r)
 	// --- produce the overlay with an arbitrary write partition, flushes and sessions
 	ovlPath := filepath.Join(env.Scratch, "overlay.bin")
 	junk := r.Chance(0.5)
@@ -322,6 +338,208 @@ func c14Run(c lib.Case, env *lib.Env) lib.Result {
 	return res
 }
 
+// c14BowlRun: the same guarantee through its real user, the overlay bowl. The new content of one file that keeps its
+// path is written through the bowl's entry writer in several sessions: Save (writer + bowl checkpoint, gob round trip),
+// optionally some more writes that a crash would leave behind, then a BRAND-NEW bowl + entry writer resumed from the
+// checkpoints; or the writer is abandoned without a checkpoint and the file restarted from scratch (Resume(nil)) in the
+// same bowl. After Finalize/Close/Commit the file must equal the new content.
+func c14BowlRun(c lib.Case, s c14Spec, env *lib.Env) lib.Result {
+	res := lib.Result{NonTrivial: true}
+	r := lib.NewRng(s.Seed)
+	old, nw, shape, forced, lenRel, small := c14Contents(r)
+	variant := []string{"sessions", "sessions", "abandon-restart", "single"}[r.Intn(4)]
+	if variant == "abandon-restart" && r.Bool() {
+		// what a stale read position would line up with: new = old minus a leading chunk
+		m := r.PickInt([]int{300000, 500000})
+		old = lib.RandomBytes(int64(m), r.Uint64())
+		k := r.PickInt([]int{32 * lib.KB, 64 * lib.KB, 128 * lib.KB, 256 * lib.KB})
+		nw = append(append([]byte(nil), old[k:]...), lib.RandomBytes(int64(r.PickInt([]int{0, 1, 9000})), r.Uint64())...)
+		shape, forced, lenRel, small = []string{fmt.Sprintf("drop-leading%d", k)}, nil, "shifted", false
+	}
+	dir, stage := filepath.Join(env.Scratch, "dir"), filepath.Join(env.Scratch, "stage")
+	os.MkdirAll(dir, 0o755)
+	other := lib.RandomBytes(1000, r.Uint64())
+	os.WriteFile(filepath.Join(dir, "a-other.bin"), other, 0o644)
+	os.WriteFile(filepath.Join(dir, "f.bin"), old, 0o644)
+	tc := &tlc.Container{Files: []*tlc.File{{Path: "a-other.bin", Size: 1000, Mode: 0o644}, {Path: "f.bin", Size: int64(len(old)), Mode: 0o644, Offset: 1000}}, Size: 1000 + int64(len(old))}
+	sc := &tlc.Container{Files: []*tlc.File{{Path: "a-other.bin", Size: 1000, Mode: 0o644}, {Path: "f.bin", Size: int64(len(nw)), Mode: 0o644, Offset: 1000}}, Size: 1000 + int64(len(nw))}
+	desc := fmt.Sprintf("seed=%d variant=%s |old|=%d |new|=%d rel=%s shape=%v", s.Seed, variant, len(old), len(nw), lenRel, headStr(shape, 6))
+	newBowl := func() (bowl.Bowl, error) {
+		return bowl.NewOverlayBowl(bowl.OverlayBowlParams{SourceContainer: sc, TargetContainer: tc, OutputFolder: dir, StageFolder: stage})
+	}
+	b, err := newBowl()
+	if err == nil {
+		err = b.Resume(nil)
+	}
+	if err != nil {
+		res.Violate("bowl:open-error", desc, err.Error())
+		return res
+	}
+	// the other file is kept as it is
+	if err := b.Transpose(bowl.Transposition{TargetIndex: 0, SourceIndex: 0}); err != nil {
+		res.Violate("bowl:transpose-error", desc, err.Error())
+		return res
+	}
+	w, err := b.GetWriter(1)
+	if err == nil {
+		_, err = w.Resume(nil)
+	}
+	if err != nil {
+		res.Violate("bowl:getwriter-error", desc, err.Error())
+		return res
+	}
+	wsize := r.PickInt(c14WriteSizes)
+	if wsize == 1 && !small {
+		wsize = 7
+	}
+	if wsize <= 7 && len(nw) > 200000 {
+		wsize = 4096
+	}
+	saveP := r.PickInt([]int{0, 1, 1, 3}) // sessions per ~10 writes
+	if variant != "sessions" {
+		saveP = 0
+	}
+	sessions, off := 1, 0
+	isForced := map[int]bool{}
+	for _, fo := range forced {
+		isForced[fo] = true
+	}
+	fail := func(key string, xs ...string) lib.Result {
+		res.Violate(key, append([]string{desc}, xs...)...)
+		return res
+	}
+	if variant == "abandon-restart" && len(nw) > 0 {
+		// first attempt: some of the content goes in, then the writer is dropped without a checkpoint
+		k := r.PickInt([]int{1, 8193, 128 * lib.KB, 128*lib.KB + 1, 140000, 270000})
+		if k > len(nw) {
+			k = len(nw)
+		}
+		if _, err := w.Write(nw[:k]); err != nil {
+			return fail("bowl:write-error", err.Error())
+		}
+		w.Close()
+		w, err = b.GetWriter(1)
+		if err == nil {
+			_, err = w.Resume(nil)
+		}
+		if err != nil {
+			return fail("bowl:getwriter-error", "second GetWriter of the same file: "+err.Error())
+		}
+		res.Add("files_restarted_from_scratch_in_the_same_bowl", 1)
+	}
+	nwrites := 0
+	for off < len(nw) {
+		n := wsize
+		if n == -1 {
+			n = len(nw)
+		} else if r.Chance(0.3) {
+			n = r.Range(1, n)
+		}
+		if off+n > len(nw) {
+			n = len(nw) - off
+		}
+		for _, fo := range forced {
+			if off < fo && off+n > fo {
+				n = fo - off
+			}
+		}
+		if _, err := w.Write(nw[off : off+n]); err != nil {
+			return fail("bowl:write-error", fmt.Sprintf("at %d: %v", off, err))
+		}
+		off += n
+		nwrites++
+		if w.Tell() != int64(off) {
+			return fail("bowl:tell-wrong", fmt.Sprintf("Tell()=%d after %d bytes", w.Tell(), off))
+		}
+		if (saveP > 0 && r.Intn(10) < saveP) || (variant == "sessions" && isForced[off] && r.Bool()) {
+			wcp, err := w.Save()
+			if err != nil {
+				return fail("bowl:save-error", err.Error())
+			}
+			bcp, err := b.Save()
+			if err != nil {
+				return fail("bowl:save-error", err.Error())
+			}
+			var wb, bb bytes.Buffer
+			if err := gob.NewEncoder(&wb).Encode(wcp); err != nil {
+				return fail("bowl:checkpoint-not-gob-encodable", err.Error())
+			}
+			if err := gob.NewEncoder(&bb).Encode(bcp); err != nil {
+				return fail("bowl:checkpoint-not-gob-encodable", err.Error())
+			}
+			if wcp.Offset != int64(off) {
+				return fail("bowl:checkpoint-offset-wrong", fmt.Sprintf("checkpoint says %d, %d bytes were written", wcp.Offset, off))
+			}
+			// what a crash leaves behind: writes made after the checkpoint, wholly or partly on disk
+			if r.Bool() && off < len(nw) {
+				extra := r.PickInt([]int{1, 5000, 140000})
+				if off+extra > len(nw) {
+					extra = len(nw) - off
+				}
+				w.Write(nw[off : off+extra])
+				if r.Bool() {
+					w.Save() // flushed to disk, but this checkpoint is lost
+				}
+				res.Add("sessions_with_writes_after_the_checkpoint", 1)
+			}
+			w.Close()
+			wcp2, bcp2 := &bowl.WriterCheckpoint{}, &bowl.BowlCheckpoint{}
+			if err := gob.NewDecoder(&wb).Decode(wcp2); err != nil {
+				return fail("bowl:checkpoint-not-gob-decodable", err.Error())
+			}
+			if err := gob.NewDecoder(&bb).Decode(bcp2); err != nil {
+				return fail("bowl:checkpoint-not-gob-decodable", err.Error())
+			}
+			b, err = newBowl()
+			if err == nil {
+				err = b.Resume(bcp2)
+			}
+			if err != nil {
+				return fail("bowl:resume-error", err.Error())
+			}
+			w, err = b.GetWriter(1)
+			if err != nil {
+				return fail("bowl:getwriter-error", err.Error())
+			}
+			roff, err := w.Resume(wcp2)
+			if err != nil {
+				return fail("bowl:resume-error", err.Error())
+			}
+			if roff != int64(off) {
+				return fail("bowl:resume-offset-wrong", fmt.Sprintf("resumed at %d, checkpoint was taken at %d", roff, off))
+			}
+			sessions++
+		}
+	}
+	if err := w.Finalize(); err != nil {
+		return fail("bowl:finalize-error", err.Error())
+	}
+	if err := w.Close(); err != nil {
+		return fail("bowl:close-error", err.Error())
+	}
+	if err := b.Commit(); err != nil {
+		return fail("bowl:commit-error", err.Error())
+	}
+	got, err := os.ReadFile(filepath.Join(dir, "f.bin"))
+	if err != nil {
+		return fail("bowl:result-unreadable", err.Error())
+	}
+	if !bytes.Equal(got, nw) {
+		return fail("bowl:result-differs", fmt.Sprintf("file has %d bytes (first diff at %d), want %d; %d sessions, write size %d", len(got), firstDiffAt(got, nw), len(nw), sessions, wsize))
+	}
+	if o, _ := os.ReadFile(filepath.Join(dir, "a-other.bin")); !bytes.Equal(o, other) {
+		return fail("bowl:other-file-changed")
+	}
+	res.Add("bowl_files_produced_and_compared", 1)
+	res.Add("bowl_sessions", int64(sessions))
+	res.Add("bowl_writes", int64(nwrites))
+	res.Feat = []string{fmt.Sprintf("bowl|%s|%s|w%d|multi=%v|small=%v", variant, lenRel, wsize, sessions > 1, small)}
+	if c.ID%97 == 0 {
+		res.Sample = map[string]interface{}{"via": "overlay bowl", "variant": variant, "oldLen": len(old), "newLen": len(nw), "sessions": sessions, "writeSize": wsize, "shape": headStr(shape, 6)}
+	}
+	return res
+}
+
 func headStr(xs []string, n int) []string {
 	if len(xs) > n {
 		return xs[:n]
@@ -333,7 +551,7 @@ func init() {
 	lib.Register(&lib.Property{
 		ID:          "C14",
 		Level:       "exploration",
-		Rule:        "old/new assembled from equal runs of {1,100,8191,8192,8193,8194,20000,131071,131072,131073,300000} bytes and differing runs (fully different, or equal except every k-th byte, k in {2,100,8000,9000}), new shorter/longer/empty, old shorter/empty; new content fed to the real overlay writer in writes of {1,7,4096,8191,8192,8193,131071,131072,131073,300000,all} bytes (randomly shortened), Flush after each write with probability {0,0.2,1} (ReadOffset must equal bytes written so far), a new writer session from (ReadOffset, OverlayOffset) after a flush with probability 0.5, overlay file pre-filled with junk longer than the final overlay in half the cases; result of the real OverlayPatchContext.Patch on an *os.File + truncate, and of a reference applier over the independently decoded ops, must both equal new. distinct = distinct (length relation, write size, flush probability, multi-session, junk, small)",
+		Rule:        "old/new assembled from equal runs of {1,100,8191,8192,8193,8194,20000,131071,131072,131073,300000} bytes and differing runs (fully different, or equal except every k-th byte, k in {2,100,8000,9000}), new shorter/longer/empty, old shorter/empty; new content fed to the real overlay writer in writes of {1,7,4096,8191,8192,8193,131071,131072,131073,300000,all} bytes (randomly shortened), Flush after each write with probability {0,0.2,1} (ReadOffset must equal bytes written so far), a new writer session from (ReadOffset, OverlayOffset) after a flush with probability 0.5, overlay file pre-filled with junk longer than the final overlay in half the cases; result of the real OverlayPatchContext.Patch on an *os.File + truncate, and of a reference applier over the independently decoded ops, must both equal new. A third of the cases go through the overlay bowl instead (the real user): the file keeps its path, its new content is written through the bowl's entry writer in sessions - Save of writer + bowl, gob round trip, optional writes after the checkpoint (as a crash leaves them), brand-new bowl and writer resumed from the checkpoints - or the writer is abandoned and the file restarted with Resume(nil) in the same bowl (incl. new = old minus a leading chunk); Tell/checkpoint offsets are checked, and after Finalize/Close/Commit the file must equal new. distinct = distinct (length relation, write size, flush probability, multi-session, junk, small)",
 		Assumptions: []string{"the old-content reader returns full reads (bytes.Reader), as *os.File does; short-reading old readers are outside the statement"},
 		Cases:       c14Cases,
 		Run:         c14Run,
